@@ -6,6 +6,7 @@ import (
 
 // FaultCfg: per-run fault rates (probabilities per opportunity).
 type FaultCfg struct {
+	Quiet float64 // probability per block that a quiet period starts (only feeders and governance act)
 	TxDrop       float64 `json:"tx_drop"`
 	TxDelay      float64 `json:"tx_delay"`
 	TxDup        float64 `json:"tx_dup"`
